@@ -183,7 +183,7 @@ class Models:
         return self.generic(I, st, fr, t, norm_path(path), args, ('mir', dest, target), None)
 
     def generic(self, I, st, fr, t, np, args, cont, c):
-        site = SITE(fr.key, fr.bb)
+        site = I.site_term(st, fr)
         rargs = [I.resolve(st, a) for a in args]
         dt = I.T[t['dest_ty']] if cont[0] == 'mir' else None
         ev = {'k': 'ext', 'path': np, 'args': rargs, 'raw_args': list(args),
@@ -255,7 +255,7 @@ class Models:
     # ----------------------------------------------------------- user callbacks
 
     def user_callback(self, I, st, fr, t, callee, cargs, cont):
-        site = SITE(fr.key, fr.bb)
+        site = I.site_term(st, fr)
         rargs = [I.resolve(st, a) for a in cargs]
         rc = I.resolve(st, callee)
         cbev = {'k': 'usercb', 'callee': rc, 'args': rargs, 'raw_args': list(cargs),
